@@ -27,7 +27,7 @@ type hostCase struct {
 	Match map[string]bool `json:"match"`
 }
 
-var hostNames = map[string]string{"n1": "example.org", "n2": "a.example.org", "n3": "ads.test.com", "n4": "x-y.example.net"}
+var hostNames = map[string]string{"n1": "example.org", "n2": "a.example.org", "n3": "Ads.Test.COM", "n4": "x-y.example.net"}
 var hostAddrs = map[string][]string{"v4": {"0.0.0.0", "127.0.0.1", "192.168.1.1"}, "v6": {"::1", "2001:db8::1", "::"}, "mapped": {"::ffff:1.2.3.4"}}
 var hostSeps = map[string][]string{"sp": {" "}, "tab": {"\t"}, "mixed": {" \t  ", "\t\t "}}
 
@@ -150,6 +150,12 @@ func cmdReplayHosts(args []string) error {
 					if withLong {
 						list = "0.0.0.0 other.example\n" + longHostsLine + "\n" + line + "\n::2 other6.example\n||blocked.example^\n"
 					}
+					// every 5th list: a later line gives the first name of the tested line another address; the other names of
+					// the tested line are asked for (the first one now has two entries and is left out)
+					withRepeat := lines%5 == 2 && len(names) >= 2
+					if withRepeat {
+						list += "10.0.0.9 " + names[0] + "\n"
+					}
 					st, err := filterlist.NewRuleStorage([]filterlist.RuleList{&filterlist.StringRuleList{ID: 5, RulesText: list}})
 					if err != nil {
 						return err
@@ -172,6 +178,9 @@ func cmdReplayHosts(args []string) error {
 					sort.Strings(keys)
 					for _, k := range keys {
 						name := hostNames[k]
+						if withRepeat && name == names[0] {
+							continue
+						}
 						for _, q := range []struct {
 							name string
 							want bool
